@@ -40,6 +40,7 @@ func main() {
 		maxStates := fs.Int("max", 0, "state cap")
 		all := fs.Bool("all", false, "do not stop at the first violation")
 		prof := fs.String("cpuprofile", "", "write cpu profile")
+		prop := fs.String("prop", "", "use the accept function of this property's check")
 		_ = fs.Parse(os.Args[2:])
 		if *prof != "" {
 			pf, _ := os.Create(*prof)
@@ -55,12 +56,15 @@ func main() {
 			OnLevel: func(d int, st *wx.Stats) {
 				fmt.Printf("depth %d: states=%d trans=%d self=%d pruned=%d t=%.1fs\n", d, st.States, st.Transitions, st.SelfLoops, st.Pruned, st.Wall.Seconds())
 			}}
+		if *prop != "" {
+			cfg.Accept = props.Accepts[*prop]
+		}
 		st := wx.Explore(sc, cfg)
 		fmt.Printf("done: states=%d trans=%d depth=%d fixpoint=%t cap=%q wall=%.1fs (%.0f trans/s)\n", st.States, st.Transitions, st.CompletedDepth, st.Fixpoint, st.CapHit, st.Wall.Seconds(), float64(st.Transitions)/st.Wall.Seconds())
 		fmt.Println("per kind:", st.PerKind)
 		fmt.Println("outcomes:", st.Outcomes)
 		for _, f := range st.Found {
-			fmt.Printf("FOUND [%s] %s x%d: %s\n   %s\n", f.Prop, f.Sig, f.Count, f.Msg, strings.Join(wx.PathStrings(sc, f.Path), "\n   "))
+			fmt.Printf("FOUND [%s] foreign=%t %s x%d: %s\n   %s\n", f.Prop, f.Foreign, f.Sig, f.Count, f.Msg, strings.Join(wx.PathStrings(sc, f.Path), "\n   "))
 		}
 	case "c13child":
 		fs := flag.NewFlagSet("c13child", flag.ExitOnError)
